@@ -30,6 +30,7 @@ from mitmproxy import tls as mtls
 from mitmproxy.addons import next_layer as next_layer_addon
 from mitmproxy.addons import proxyserver as proxyserver_addon
 from mitmproxy.addons import tlsconfig
+from mitmproxy.net import tls as net_tls
 from mitmproxy.proxy import commands as mcommands
 from mitmproxy.proxy import context as mcontext
 from mitmproxy.proxy import events as mevents
@@ -311,12 +312,18 @@ def hs_case(case, t: Tally, verbose=False):
 
 
 STACK_MODES = ["regular", "upstream:https://up.example:8080"]
-STACK_OFFERS = [[], [H2, H11], [H11, H2], [H11], [H2], [FOO, H11]]
+# the full offer alphabet (every ordered list of <= 2 protocols), crossed with http2 on/off
+STACK_OFFERS = list(offer_lists(2))
+# who answers the next_layer hook below the mode layer: the shipped NextLayer addon, which stacks ClientTLSLayer and
+# HttpLayer in one go, or an addon that only puts the ClientTLSLayer there and leaves the rest to later next_layer
+# hooks ("lazy", how a user addon - and mitmproxy before LayerStack - builds the same secure web proxy)
+STACK_BUILDS = ["addon", "lazy"]
 
 
 def stack_case(case, t: Tally, verbose=False):
     """secure web proxy: the client talks TLS to an explicit HTTP proxy; everything above the socket is real"""
     mode, http2, offers = case["mode"], case["http2"], case["offers"]
+    build = case.get("build", "addon")
     e = env()
     e["tctx"].options.http2 = http2
     client = connection.Client(peername=("192.0.2.1", 1234), sockname=("192.0.2.2", 8080), timestamp_start=0,
@@ -332,7 +339,10 @@ def stack_case(case, t: Tally, verbose=False):
             x = pending.pop(0)
             for c in top.handle_event(x):
                 if isinstance(c, mlayer.NextLayerHook):
-                    e["nl"].next_layer(c.data)
+                    if build == "lazy" and c.data.context.layers == [top] and net_tls.starts_like_tls_record(c.data.data_client()):
+                        c.data.layer = ptls.ClientTLSLayer(c.data.context)
+                    else:
+                        e["nl"].next_layer(c.data)
                     pending.append(mevents.HookCompleted(c, None))
                 elif isinstance(c, ptls.TlsClienthelloHook):
                     e["tc"].tls_clienthello(c.data)
@@ -353,10 +363,10 @@ def stack_case(case, t: Tally, verbose=False):
                 elif isinstance(c, mcommands.SendData) and c.connection is client:
                     inc.write(c.data)
 
-    f0 = {"via": "stack", "mode": mode.split(":")[0], "http2": http2}
+    f0 = {"via": "stack" if build == "addon" else "stack-lazy", "mode": mode.split(":")[0], "http2": http2}
+    cdone = False
     try:
         feed(mevents.Start())
-        cdone = False
         for _ in range(20):
             cdone, data = client_step(cl, out)
             if data:
@@ -365,12 +375,14 @@ def stack_case(case, t: Tally, verbose=False):
                 break
     except KeyboardInterrupt:
         raise
-    except ssl.SSLError as ex:
-        t.bad("stack_handshake_completes", f0, case, "completed handshake", repr(ex))
-        return
     except BaseException as ex:
-        t.bad("stack_handshake_completes", f0, case, "completed handshake", repr(ex))
-        return
+        if cdone and seen["established"]:
+            # the handshake (and with it the ALPN selection, which is all this property is about) is over; what
+            # the HTTP layer does with the negotiated protocol afterwards (e.g. h3 negotiated over TCP) is not judged here
+            t.note("layer stack raised after the client handshake had completed: %s" % type(ex).__name__)
+        else:
+            t.bad("stack_handshake_completes", f0, case, "completed handshake", repr(ex))
+            return
     if not t.judge("stack_handshake_completes", cdone and seen["established"] and not seen["failed"], f0, case, "completed handshake", dict(seen)):
         return
     sel = cl.selected_alpn_protocol()
@@ -384,7 +396,7 @@ def stack_case(case, t: Tally, verbose=False):
     if not http2:
         t.judge("no_h2_when_disabled", sel != H2, f, case, "not h2", sel)
     t.judge("connection_records_negotiated_alpn", (client.alpn or None) == sel, f, case, sel, client.alpn)
-    t.outcome(["stack", f0["mode"], http2, pcls(sel), f["override_applied"]])
+    t.outcome([f0["via"], f0["mode"], http2, pcls(sel), f["override_applied"]])
 
 
 SF_MODES = ["reverse:https://up.example:443", "reverse:tls://up.example:443"]
@@ -673,10 +685,11 @@ def run(ctx):
             for http2 in (True, False):
                 for offers in HS_OFFERS:
                     hs.append({"part": "handshake", "cfg": cfg, "upstream": up, "http2": http2, "offers": offers})
-    for mode in STACK_MODES:
-        for http2 in (True, False):
-            for offers in STACK_OFFERS:
-                hs.append({"part": "stack", "mode": mode, "http2": http2, "offers": offers})
+    for build in STACK_BUILDS:
+        for mode in STACK_MODES:
+            for http2 in (True, False):
+                for offers in STACK_OFFERS:
+                    hs.append({"part": "stack", "build": build, "mode": mode, "http2": http2, "offers": offers})
     for mode in SF_MODES:
         for up_alpn in SF_UPSTREAM_ALPN:
             for http2 in (True, False):
@@ -693,7 +706,8 @@ def run(ctx):
                   "protocols": [p.decode() for p in PROTOS], "offer_list_maxlen": maxlen, "upstream": ["unknown(None)", "none negotiated(b'')"] + [p.decode() for p in PROTOS],
                   "http2": [True, False], "client_alpn_override": [None, "http/1.1"], "callback_cases": len(cases),
                   "handshake_configs": LAYER_CONFIGS, "handshake_upstreams": [ucls(u) for u in HS_UPSTREAMS], "handshake_offers": [[o.decode() for o in x] for x in HS_OFFERS],
-                  "stack_modes": STACK_MODES, "stack_offers": [[o.decode() for o in x] for x in STACK_OFFERS], "handshakes": len(hs)}
+                  "stack_modes": STACK_MODES, "stack_builds": STACK_BUILDS, "stack_offers": "every ordered list of <= 2 of the 6 protocols (%d lists)" % len(STACK_OFFERS),
+                  "handshakes": len(hs)}
     env()  # CA and addons once per process
     # measured: the whole callback product costs < 1 s of CPU and the handshakes ~5 s; starting a process pool costs
     # more than that on a busy machine, so everything runs in-process (same chunking, same merge order)
